@@ -38,7 +38,9 @@ class AffineQuantizer(Function):
         if group_size is not None:
             base = group(base, axis=axis, group_size=group_size)
         bits = qtype.bits
-        data = torch.clamp(torch.round(base / scale) + zeropoint, min=0, max=2**bits - 1).to(torch.uint8)
+        # A null scale must not produce NaN codes (0 / 0)
+        data = torch.nan_to_num(base / scale, nan=0.0)
+        data = torch.clamp(torch.round(data) + zeropoint, min=0, max=2**bits - 1).to(torch.uint8)
 
         return QBitsTensor.create(qtype, axis, group_size, size, stride, data, scale, zeropoint)
 
